@@ -68,8 +68,181 @@ Proof.
   change (ni_owner (nifof (eff k) (tr_eg p (eff k)))) with (eg_rtr (eff k)).
   destruct (eg_rtr (eff k) =? r)%N eqn:Ow.
   - rewrite Nb, Ak1, Rm, Fg. rewrite ?Ik, ?Ik1.
-    eexists. repeat split; try eassumption; try reflexivity.
-  - rewrite ?Ik. eexists. repeat split; try eassumption; try reflexivity.
+    exists (obs_step (mkLoc (ia p k) r ing) (tr_eg p (eff k)) true q').
+    do 7 (split; [first [reflexivity | assumption]|]).
+    split; [reflexivity|]. split; [exact Vq|reflexivity].
+  - rewrite ?Ik.
+    exists (obs_step (mkLoc (ia p k) r ing) (tr_eg p (eff k)) false q').
+    do 7 (split; [first [reflexivity | assumption]|]).
+    split; [reflexivity|]. split; [exact Vq|reflexivity].
+Qed.
+
+Lemma run_mid f q k k0 :
+  View q k k true -> (S k < n)%nat -> crosses p k = true -> (k < lim)%nat -> (js k < jlim)%nat ->
+  entry p k = k0 -> (1 <= k0)%nat -> crosses p (k0 - 1) = true -> asof k0 = asof k ->
+  in_rtr k0 <> eg_rtr k ->
+  exists q' st,
+    t_ia st = ia p k /\ t_ing st = InSib (in_rtr k0 + 1) /\ t_eg st = tr_eg p k /\ t_ext st = true /\
+    View q' (S k) (S k) false /\
+    run_fuel macq t now (S f) (mkLoc (ia p k) (eg_rtr k) (InSib (in_rtr k0 + 1))) q =
+    (let '(tr, fin) := run_fuel macq t now f (ext_loc (S k)) q' in ((st, q') :: tr, fin)).
+Proof.
+  intros V Hk C Hl Hj He K0 C0 As0 Hne. assert (Hk' : (k < n)%nat) by lia.
+  destruct (step_mid mac t now p pp HG Hep Hexp lim jlim q k k0 (eg_rtr k) V Hk C Hl Hj He K0 C0 As0 eq_refl Hne)
+    as (q' & Eps & Vq).
+  destruct (as_of_ok _ _ _ HG k Hk') as [Ak Ik].
+  destruct (link_fact _ _ _ HG k Hk C) as (Ff & Fg & _ & _ & _ & _ & _ & Nb & Rm).
+  destruct (as_of_ok _ _ _ HG (S k) Hk) as [Ak1 Ik1].
+  exists q', (obs_step (mkLoc (ia p k) (eg_rtr k) (InSib (in_rtr k0 + 1))) (tr_eg p k) true q').
+  do 4 (split; [reflexivity|]). split; [exact Vq|].
+  cbn [run_fuel l_ia l_rtr l_ing]. rewrite Ak, Eps, Ff.
+  change (ni_owner (nifof k (tr_eg p k))) with (eg_rtr k). rewrite N.eqb_refl.
+  rewrite Nb, Ak1, Rm, Fg. rewrite ?Ik1. reflexivity.
+Qed.
+
+Lemma run_deliver f q k ing r :
+  View q k k false -> S k = n -> (k < lim)%nat -> (js k < jlim)%nat -> arrives k ing ->
+  exists q' st d,
+    t_ia st = ia p k /\ t_ing st = ing /\ t_ext st = false /\ View q' k k true /\
+    deliver_target (asof k) pp = Some d /\
+    run_fuel macq t now (S f) (mkLoc (ia p k) r ing) q = ([(st, q')], Delivered (ia p k) r (fst d) (snd d)).
+Proof.
+  intros V Hn Hl Hj Ha. assert (Hk : (k < n)%nat) by lia.
+  destruct (step_deliver mac t now p pp HG Hep Hexp lim jlim q k ing r V Hn Hl Hj Ha) as (q' & d & Eps & Vq & Dt).
+  destruct (as_of_ok _ _ _ HG k Hk) as [Ak Ik].
+  exists q', (obs_step (mkLoc (ia p k) r ing) 0 false q'), d.
+  do 3 (split; [reflexivity|]). split; [exact Vq|]. split; [exact Dt|].
+  cbn [run_fuel l_ia l_rtr l_ing]. rewrite Ak, Eps. now rewrite Ik.
 Qed.
 
 End Run.
+
+(** * The whole walk *)
+Section Walk.
+Variable mac : N -> N -> N -> N -> N -> N -> list N.
+Variable t : topology.
+Variable now : N.
+Variable p : prov.
+Variable pp : pparams.
+Hypothesis HG : good mac t p.
+Hypothesis Hep : endpoints_ok t p pp = true.
+Hypothesis Hexp : all_unexpired now p = true.
+
+Notation n := (nhops p).
+Notation js := (seg_idx (lens p)).
+Notation nsegs := (length (pv_segs p)).
+Notation macq := (macq_of mac).
+Notation Hs := (Hshape mac t p HG).
+Notation asof := (as_of t p).
+Notation View := (view p pp n nsegs).
+Notation eff := (eff p).
+Notation in_rtr := (in_rtr t p).
+Notation eg_rtr := (eg_rtr t p).
+Notation arrives := (arrives p).
+
+Definition pairs_of (k : nat) : list (N * N) :=
+  if crosses p k then [(ia p k, tr_eg p k); (ia p (S k), tr_in p (S k))] else [].
+Definition ifs_from (k m : nat) : list (N * N) := flat_map pairs_of (seq k m).
+
+Lemma interfaces_ifs : interfaces p = ifs_from 0 (n - 1).
+Proof. reflexivity. Qed.
+
+Lemma ifs_from_S k m : ifs_from k (S m) = pairs_of k ++ ifs_from (S k) m.
+Proof. reflexivity. Qed.
+
+Lemma eff_le k : (S k < n)%nat -> (k <= eff k)%nat /\ (eff k <= S k)%nat.
+Proof. unfold ForwardStep.eff. destruct (crosses p k || Nat.eqb (S k) n); lia. Qed.
+
+Lemma ifs_from_eff k : (S k < n)%nat -> (S (eff k) < n)%nat -> crosses p (eff k) = true ->
+  ifs_from k (n - 1 - k) =
+  [(ia p (eff k), tr_eg p (eff k)); (ia p (S (eff k)), tr_in p (S (eff k)))] ++
+  ifs_from (S (eff k)) (n - 1 - S (eff k)).
+Proof.
+  intros Hk Hn C. unfold ForwardStep.eff in *.
+  destruct (crosses p k) eqn:Ck; cbn [orb] in *.
+  - replace (n - 1 - k)%nat with (S (n - 1 - S k)) by lia. rewrite ifs_from_S.
+    unfold pairs_of. now rewrite Ck.
+  - replace (Nat.eqb (S k) n) with false in * by (symmetry; apply Nat.eqb_neq; lia).
+    replace (n - 1 - k)%nat with (S (S (n - 1 - S (S k)))) by lia. rewrite !ifs_from_S.
+    unfold pairs_of at 1 2. rewrite Ck, C. reflexivity.
+Qed.
+
+Definition pre (ing : ingress) (k : nat) : list (N * N) :=
+  match ing with InExt i => [(ia p k, i)] | _ => [] end.
+
+Lemma walk_from_arrive : forall m k f q ing r,
+  (n - k <= m)%nat -> (k < n)%nat -> View q k k false -> arrives k ing ->
+  (k = 0%nat -> r = eg_rtr (eff k)) -> ((1 <= k)%nat -> r = in_rtr k) -> (2 * (n - k) <= f)%nat ->
+  exists tr0 stf qf rtr d,
+    run_fuel macq t now f (mkLoc (ia p k) r ing) q =
+      (tr0 ++ [(stf, qf)], Delivered (ia p (n - 1)) rtr (fst d) (snd d)) /\
+    crossed (map fst (tr0 ++ [(stf, qf)])) = pre ing k ++ ifs_from k (n - 1 - k) /\
+    deliver_target (asof (n - 1)) pp = Some d /\ View qf (n - 1) (n - 1) true.
+Proof.
+  induction m as [|m IH]; intros k f q ing r Hm Hk V Ha H0 H1 Hf; [lia|].
+  destruct f as [|f]; [lia|].
+  pose proof (js_lt p Hs) as JL.
+  destruct (Nat.eq_dec (S k) n) as [Last|NotLast].
+  - (* the destination AS *)
+    destruct (run_deliver mac t now p pp HG Hep Hexp n nsegs f q k ing r V Last Hk (JL k Hk) Ha)
+      as (q' & st & d & Tia & Ting & Text & Vq & Dt & Er).
+    exists [], st, q', r, d. replace (n - 1)%nat with k by lia. cbn [app].
+    split; [exact Er|]. split; [|split; assumption].
+    cbn [map crossed flat_map]. unfold crossed_step. rewrite Ting, Text, Tia.
+    replace (k - k)%nat with 0%nat by lia. cbn [ifs_from seq flat_map]. unfold pre.
+    destruct ing; now rewrite ?app_nil_r.
+  - assert (Hk1 : (S k < n)%nat) by lia.
+    destruct (eff_le k Hk1) as [El Eu].
+    assert (Hle : (eff k < n)%nat) by lia.
+    destruct (run_arrive mac t now p pp HG Hep Hexp n nsegs f q k ing r V Hk1 Hle (JL _ Hle) Ha H0)
+      as (q' & st & Tia & Ting & Teg & Trt & Hn & C & Iae & Rest).
+    destruct (eg_rtr (eff k) =? r)%N eqn:Ow.
+    + (* this router owns the egress interface *)
+      destruct Rest as (Text & Vq & Er).
+      destruct (IH (S (eff k)) f q' (InExt (tr_in p (S (eff k)))) (in_rtr (S (eff k))))
+        as (tr0 & stf & qf & rtr & d & Er' & Cr & Dt & Vf); try assumption; try lia.
+      { right. replace (S (eff k) - 1)%nat with (eff k) by lia. repeat split; [lia|assumption]. }
+      { intros; lia. }
+      { reflexivity. }
+      unfold ext_loc in Er. rewrite Er' in Er.
+      exists ((st, q') :: tr0), stf, qf, rtr, d.
+      split; [exact Er|]. split; [|split; assumption].
+      change (((st, q') :: tr0) ++ [(stf, qf)]) with ((st, q') :: (tr0 ++ [(stf, qf)])).
+      cbn [map crossed flat_map]. fold (crossed (map fst (tr0 ++ [(stf, qf)]))). rewrite Cr.
+      unfold crossed_step. rewrite Ting, Text, Tia, Teg.
+      rewrite (ifs_from_eff k Hk1 Hn C). rewrite Iae. unfold pre.
+      destruct ing; cbn [app]; reflexivity.
+    + (* a sibling router owns it *)
+      destruct Rest as (Text & Vq & Er).
+      assert (K1 : (1 <= k)%nat).
+      { destruct k; [|lia]. rewrite <- (H0 eq_refl) in Ow. rewrite N.eqb_refl in Ow. discriminate. }
+      destruct Ha as [[-> _]|(_ & Cp & Eing)]; [lia|].
+      rewrite (H1 K1) in *.
+      destruct f as [|f]; [lia|].
+      assert (En : entry p (eff k) = k).
+      { unfold ForwardStep.eff in *. destruct (crosses p k) eqn:Ck; cbn [orb] in *.
+        - now apply (entry_same mac t p HG).
+        - replace (Nat.eqb (S k) n) with false in * by (symmetry; apply Nat.eqb_neq; lia).
+          now apply (entry_junction mac t p HG). }
+      assert (As0 : asof k = asof (eff k)).
+      { unfold as_of. now rewrite Iae. }
+      assert (Hne : in_rtr k <> eg_rtr (eff k)).
+      { intros X. rewrite X, N.eqb_refl in Ow. discriminate. }
+      destruct (run_mid mac t now p pp HG Hep Hexp n nsegs f q' (eff k) k Vq Hn C Hle (JL _ Hle) En K1 Cp As0 Hne)
+        as (q2 & st2 & Tia2 & Ting2 & Teg2 & Text2 & Vq2 & Er2).
+      rewrite <- Iae in Er. rewrite Er2 in Er.
+      destruct (IH (S (eff k)) f q2 (InExt (tr_in p (S (eff k)))) (in_rtr (S (eff k))))
+        as (tr0 & stf & qf & rtr & d & Er' & Cr & Dt & Vf); try assumption; try lia.
+      { right. replace (S (eff k) - 1)%nat with (eff k) by lia. repeat split; [lia|assumption]. }
+      { intros; lia. }
+      { reflexivity. }
+      unfold ext_loc in Er. rewrite Er' in Er. rewrite Iae in Er.
+      exists ((st, q') :: (st2, q2) :: tr0), stf, qf, rtr, d.
+      split; [exact Er|]. split; [|split; assumption].
+      change (((st, q') :: (st2, q2) :: tr0) ++ [(stf, qf)]) with ((st, q') :: (st2, q2) :: (tr0 ++ [(stf, qf)])).
+      cbn [map crossed flat_map]. fold (crossed (map fst (tr0 ++ [(stf, qf)]))). rewrite Cr.
+      unfold crossed_step. rewrite Ting, Text, Tia, Ting2, Text2, Tia2, Teg2.
+      rewrite (ifs_from_eff k Hk1 Hn C). unfold pre. rewrite Eing. cbn [app]. reflexivity.
+Qed.
+
+End Walk.
